@@ -24,6 +24,8 @@ transformations:
     type: field_name_mapping
     mapping:
       fieldA: mappedA
+  - id: cstrict
+    type: strict_field_mapping_failure
 """
 USER_PIPE = """
 name: verif-user-pipeline
@@ -42,6 +44,11 @@ transformations:
     rule_conditions:
       - type: logsource
         category: failcat
+  - id: utmpl
+    type: add_condition
+    template: true
+    conditions:
+      src: "$product"
 """
 
 
@@ -54,9 +61,14 @@ def doc(kind: str) -> dict:
         d = rule_doc("failPH", 7)
         d["detection"]["condition"] = "not sel"
         return d
+    if kind == "direct":  # uses the mapping TARGET name itself: not a mapped field of this rule
+        d = rule_doc("ok1", 7)
+        d["detection"]["sel"] = {"mappedA": "v7"}
+        return d
     return rule_doc(kind, 7)
 
 
+PROBES = ("ok1", "okstate", "neqok", "ok2", "direct")
 _CLS = None
 
 
@@ -132,6 +144,7 @@ def drive_case(case):
         "errors_delta": len(bk[b].errors) - nerr,
         "fresh": case["_fresh"][kind],
         "windows": kind == "okstate",
+        "direct": kind == "direct",
     }
 
 
@@ -143,10 +156,17 @@ def run(tier: str, seed: int) -> int:
     neg = tlc.run_tlc("MC_PipelineObjects", "MC_PipelineObjects_negative.cfg", workers=4, check_ok=False)
     if "HistoryFree is violated" not in neg.out:
         raise tlc.MachineryError("negative control: TLC found no counterexample for the pre-repair ownership mechanism")
-    chk.coverage["negative_control"] = {"cfg": "MC_PipelineObjects_negative.cfg", "refuted": "HistoryFree"}
+    for cfg in ("MC_PipelineObjects_negative_tracking.cfg", "MC_PipelineObjects_negative_template.cfg"):
+        neg = tlc.run_tlc("MC_PipelineObjects", cfg, workers=4, check_ok=False)
+        if "HistoryFree is violated" not in neg.out:
+            raise tlc.MachineryError(f"negative control {cfg}: TLC found no counterexample")
+    chk.coverage["negative_control"] = {"cfgs": ["MC_PipelineObjects_negative.cfg (items keep their old owner)",
+                                                 "MC_PipelineObjects_negative_tracking.cfg (field-mapping tracking survives apply)",
+                                                 "MC_PipelineObjects_negative_template.cfg (template item overwrites its template)"],
+                                        "refuted": "HistoryFree"}
     # the reference: each probe converted first thing in a newly started interpreter
     fresh = {}
-    for kind in ("ok1", "okstate", "neqok", "ok2"):
+    for kind in PROBES:
         p = subprocess.run(
             [sys.executable, "-c", f"import json; from harness.props.c15 import fresh_result; print(json.dumps(fresh_result({kind!r})))"],
             capture_output=True, text=True, cwd=VERIF, env=dict(os.environ, PYTHONPATH=VERIF + os.pathsep + REPO),
@@ -167,9 +187,11 @@ def run(tier: str, seed: int) -> int:
         evaluations=len(obs),
         distinct_nontrivial=nontrivial,
         rule="TLC (Gen_C15) enumerates every enabled history of <=2 (thorough 3) operations after creating backend A over "
-        "{create backend A/B sharing the user pipeline object or not, init pipeline, convert a single rule / a collection "
+        "(class pipeline: set_state, field mapping, strict mapping check; user pipeline: state-gated prefix, rule failure, "
+        "templated add_condition) {create backend A/B sharing the user pipeline object or not, init pipeline, convert a single rule / a collection "
         "of each kind incl. failures in the pipeline, on a placeholder, on a missing detection and inside negated "
-        "not-equals rendering} plus seeded random walks of 3..7 operations, each followed by 4 probe rules on each "
+        "not-equals rendering} plus seeded random walks of 3..7 operations, each followed by 5 probe rules (one/two conditions, state-setting, negated, one that names a mapping target "
+        "directly and must fail the strict mapping check) on each "
         "existing backend; the reference for every probe is its conversion as the first action of a newly started "
         "interpreter; non-trivial = history of at least 3 operations",
         samples=samples,
@@ -180,7 +202,7 @@ def run(tier: str, seed: int) -> int:
 
 def replay(path: str) -> int:
     def prepare(chk, cases):
-        fresh = {k: fresh_result(k) for k in ("ok1", "okstate", "neqok", "ok2")}
+        fresh = {k: fresh_result(k) for k in PROBES}
         for c in cases:
             c["_fresh"] = fresh
 
